@@ -80,7 +80,7 @@ func cmdCheck(args []string) {
 	if *evPath == "" {
 		*evPath = "/verif/evidence/" + *prop + ".json"
 	}
-	timeoutS := 10
+	timeoutS := 20
 	if *tier == "thorough" {
 		timeoutS = 60
 	}
